@@ -5,7 +5,9 @@ SPEC = {
         "ready": True,
         "sources": ["c04_main.cpp", "c04_vec2i.cpp", "c04_vec2f.cpp", "c04_vec3i.cpp", "c04_vec3f.cpp", "c04_vec4i.cpp", "c04_vec4f.cpp",
                     "c04_color3.cpp", "c04_color4.cpp", "c04_shearquat.cpp", "c04_m22m33.cpp", "c04_m44.cpp",
-                    "c04_conv_vec2.cpp", "c04_conv_vec3.cpp", "c04_conv_vec4.cpp", "c04_conv_misc.cpp", "c04_stream.cpp", "c04_alias.cpp"],
+                    "c04_conv_vec2.cpp", "c04_conv_vec3.cpp", "c04_conv_vec4.cpp", "c04_conv_misc.cpp", "c04_stream.cpp", "c04_alias.cpp", "c04_consteval.cpp"],
+        # the C++23 `if consteval` branches of the const operator[] exist only at this language level
+        "source_flags": {"c04_consteval.cpp": ["-std=c++2b"]},
         "lib": ["half.cpp"],
         "technique": "exhaustive enumeration of the configuration product (class template x element type x operator x spelling) "
                      "over deviation-bounded operand alphabets, against the scalar operation of the element type compared bitwise",
